@@ -1,4 +1,5 @@
 import NomtModel.Store.Crash3
+import NomtModel.Store.RecoverReal
 /-!
 # C04 — Durability never depends on unsynced data (power-loss safety)
 
@@ -36,5 +37,97 @@ theorem T4_1_powerloss_atomic
     (∀ img, IsImage (run ⟨d0, []⟩ (pre ++ ([Ev.eff (.setMeta m1), Ev.fsync File.fMeta] ++ post))) img →
        absOf P img = absNew P (run ⟨d0, []⟩ pre).dur m1 w1) :=
   sync_crash_atomic P d0 hinert pre post m1 w1 hpre hflushed hwal hseq hpost
+
+/-! ## With the rollback log (`Store/CrashLog.lean`)
+
+`absOfL` adds the third thing recovery reads: the live rollback records `absLog m l` — the records of `l` inside the
+live range `[startLive m, endLive m]` written in the meta (mirror of `seglog::open`), of which `Rollback::read` keeps the
+last `max_rollback_log_len`.  `EvPreL` additionally accepts, before the meta write, any `logSet l'` that recovery under
+the OLD meta cannot tell from the old log (`absLog_append_beyond`: appends beyond the old live range — `Rollback::commit`
+→ `seglog.append`); `PostOKL` additionally accepts, after the meta fsync, any `logSet l'` that recovery under the NEW
+meta cannot tell from the log as it was at the meta write (`absLog_filter_keep`, `absLog_drop_lagging`: `prune_oldest` /
+`prune_recent` outside the new live range).  `hflushed` demands the appends durable before the meta write. -/
+
+/-- T4.2 **power-loss atomicity of a sync, including the rollback log**: every image (durable part plus ANY sub-list of
+the un-synced effects) of EVERY prefix of an accepted trace recovers — tree, hash-table view and live rollback
+records together — to exactly the old or exactly the new state, and to the new state after the whole trace. -/
+theorem T4_2_powerloss_atomic_with_rollback_log (L : LogParams MetaRec LogRec)
+    (d0 : Disk Content MetaRec WalRec LogRec)
+    (hinert : ∀ b, htView P d0 b = d0.pages File.fHt b)
+    (pre post : List (Ev Content MetaRec WalRec LogRec)) (m1 : MetaRec) (w1 : WalRec)
+    (hpre : ∀ ev ∈ pre, EvPreL P L d0 ev)
+    (hflushed : (run ⟨d0, []⟩ pre).vol = [])
+    (hwal : (run ⟨d0, []⟩ pre).dur.wal = some w1)
+    (hseq : P.walSeqn w1 = P.seqn m1)
+    (hpost : PostOKL P L (run ⟨d0, []⟩ pre).dur m1 w1 ⟨applyEff (run ⟨d0, []⟩ pre).dur (.setMeta m1), []⟩ post) :
+    (∀ p, p <+: pre ++ ([Ev.eff (.setMeta m1), Ev.fsync File.fMeta] ++ post) →
+       ∀ img, IsImage (run ⟨d0, []⟩ p) img →
+         absOfL P L img = absOfL P L d0 ∨
+         absOfL P L img = (absNew P (run ⟨d0, []⟩ pre).dur m1 w1, absLog L m1 (run ⟨d0, []⟩ pre).dur.log)) ∧
+    (∀ img, IsImage (run ⟨d0, []⟩ (pre ++ ([Ev.eff (.setMeta m1), Ev.fsync File.fMeta] ++ post))) img →
+       absOfL P L img = (absNew P (run ⟨d0, []⟩ pre).dur m1 w1, absLog L m1 (run ⟨d0, []⟩ pre).dur.log)) :=
+  sync_crash_atomic_log P L d0 hinert pre post m1 w1 hpre hflushed hwal hseq hpost
+
+/-- T4.2a the concrete shapes of the accepted log effects: an append beyond the live range is invisible to recovery
+under that meta; so is dropping records outside the live range. -/
+theorem T4_2a_append_and_prune_invisible (L : LogParams MetaRec LogRec) (m : MetaRec) (l ext : List LogRec)
+    (keep : LogRec → Bool) (hext : ∀ r ∈ ext, L.endLive m < L.recId r)
+    (hkeep : ∀ r, L.live m r = true → keep r = true) :
+    absLog L m (l ++ ext) = absLog L m l ∧ absLog L m (l.filter keep) = absLog L m l :=
+  ⟨absLog_append_beyond L m l ext hext, absLog_filter_keep L m l keep hkeep⟩
+
+/-- non-vacuity of T4.2: the tiny instance `NomtDisk.Toy` (commit appending record 3, new root page, WAL; after the
+meta the lagging record 1 is pruned, the table written, the WAL collapsed) satisfies every hypothesis, and its old and
+new states differ. -/
+example :
+    (∀ p, p <+: Toy.pre ++ ([Ev.eff (.setMeta Toy.m1), Ev.fsync File.fMeta] ++ Toy.post) →
+       ∀ img, IsImage (run ⟨Toy.d0, []⟩ p) img →
+         absOfL Toy.P Toy.L img = absOfL Toy.P Toy.L Toy.d0 ∨
+         absOfL Toy.P Toy.L img = (absNew Toy.P (run ⟨Toy.d0, []⟩ Toy.pre).dur Toy.m1 Toy.w1,
+           absLog Toy.L Toy.m1 (run ⟨Toy.d0, []⟩ Toy.pre).dur.log)) ∧
+    absOfL Toy.P Toy.L Toy.d0 ≠ (absNew Toy.P (run ⟨Toy.d0, []⟩ Toy.pre).dur Toy.m1 Toy.w1,
+           absLog Toy.L Toy.m1 (run ⟨Toy.d0, []⟩ Toy.pre).dur.log) :=
+  ⟨(T4_2_powerloss_atomic_with_rollback_log Toy.P Toy.L Toy.d0 Toy.hinert Toy.pre Toy.post Toy.m1 Toy.w1
+      Toy.hpre Toy.hflushed Toy.hwal Toy.hseq Toy.hpost).1, Toy.old_ne_new⟩
+
+/-- T4.2b the new live records after a commit are the old ones plus the appended record (the meta keeps the start,
+moves the end to the new record; nothing lay beyond the old end). -/
+theorem T4_2b_new_live_records (L : LogParams MetaRec LogRec) (m0 m1 : MetaRec) (l : List LogRec) (r : LogRec)
+    (hs : L.startLive m1 = L.startLive m0) (he : L.endLive m1 = L.recId r)
+    (hr : L.endLive m0 < L.recId r) (hsr : L.startLive m0 ≤ L.recId r)
+    (hl : ∀ x ∈ l, L.recId x ≤ L.endLive m0) :
+    liveRecs L m1 (l ++ [r]) = liveRecs L m0 l ++ [r] :=
+  liveRecs_commit L m0 m1 l r hs he hr hsr hl
+
+/-- T4.2c **the same, started while the previous sync's WAL truncation is still un-synced** (`bitbox` does not fsync
+`truncate_wal` at the end of a sync): the start state is `⟨d0, vol0⟩` with `vol0` holding only WAL truncations, and
+WAL truncations are also accepted anywhere before the meta write (`AllowedPreL'`). -/
+theorem T4_2c_powerloss_atomic_pending_wal_truncation (L : LogParams MetaRec LogRec)
+    (d0 : Disk Content MetaRec WalRec LogRec)
+    (hinert : ∀ b, htView P d0 b = d0.pages File.fHt b)
+    (vol0 : List (Eff Content MetaRec WalRec LogRec)) (hvol0 : ∀ e ∈ vol0, e = Eff.walSet none)
+    (pre post : List (Ev Content MetaRec WalRec LogRec)) (m1 : MetaRec) (w1 : WalRec)
+    (hpre : ∀ ev ∈ pre, EvA (AllowedPreL' P L d0) ev)
+    (hflushed : (run ⟨d0, vol0⟩ pre).vol = [])
+    (hwal : (run ⟨d0, vol0⟩ pre).dur.wal = some w1)
+    (hseq : P.walSeqn w1 = P.seqn m1)
+    (hpost : PostOKL P L (run ⟨d0, vol0⟩ pre).dur m1 w1
+      ⟨applyEff (run ⟨d0, vol0⟩ pre).dur (.setMeta m1), []⟩ post) :
+    (∀ p, p <+: pre ++ ([Ev.eff (.setMeta m1), Ev.fsync File.fMeta] ++ post) →
+       ∀ img, IsImage (run ⟨d0, vol0⟩ p) img →
+         absOfL P L img = absOfL P L d0 ∨
+         absOfL P L img = (absNew P (run ⟨d0, vol0⟩ pre).dur m1 w1, absLog L m1 (run ⟨d0, vol0⟩ pre).dur.log)) ∧
+    (∀ img, IsImage (run ⟨d0, vol0⟩ (pre ++ ([Ev.eff (.setMeta m1), Ev.fsync File.fMeta] ++ post))) img →
+       absOfL P L img = (absNew P (run ⟨d0, vol0⟩ pre).dur m1 w1, absLog L m1 (run ⟨d0, vol0⟩ pre).dur.log)) :=
+  sync_crash_atomic_log_pending P L d0 hinert vol0 hvol0 pre post m1 w1 hpre hflushed hwal hseq hpost
+
+/-- non-vacuity of T4.2c: `Toy.d0p` still holds the previous (applied) WAL, its truncation is pending. -/
+example :
+    ∀ img, IsImage (run ⟨Toy.d0p, Toy.vol0⟩
+        (Toy.pre ++ ([Ev.eff (.setMeta Toy.m1), Ev.fsync File.fMeta] ++ Toy.post))) img →
+      absOfL Toy.P Toy.L img = (absNew Toy.P (run ⟨Toy.d0p, Toy.vol0⟩ Toy.pre).dur Toy.m1 Toy.w1,
+        absLog Toy.L Toy.m1 (run ⟨Toy.d0p, Toy.vol0⟩ Toy.pre).dur.log) :=
+  (T4_2c_powerloss_atomic_pending_wal_truncation Toy.P Toy.L Toy.d0p Toy.hinertp Toy.vol0 Toy.hvol0 Toy.pre Toy.post
+    Toy.m1 Toy.w1 Toy.hprep Toy.hflushedp Toy.hwalp Toy.hseq Toy.hpostp).2
 
 end Nomt.C04
